@@ -97,6 +97,8 @@ type run struct {
 	gate    *gate
 	inconcl []string
 	mu      sync.Mutex
+	// bypassed: a pair plan whose parked write never passed the yield point
+	bypassed bool
 }
 
 func (r *run) inconclusive(format string, a ...any) {
@@ -124,12 +126,12 @@ func (wr *writerRun) do(r *run, op *OpSpec) *opRec {
 	var fn func() error
 	after := func() {}
 	switch op.Kind {
-	case "put", "putnew", "push":
+	case "put", "putnew", "push", "putdel":
 		wr.counter++
 		token := fmt.Sprintf("w%d-%d", wr.spec.ID, wr.counter)
 		nr := newRec(r.w.db, key, token, op.Score, op.Tag)
 		ns := &keyState{token: token, score: op.Score, tag: op.Tag, secret: op.PreSecret, crown: op.PreCrown}
-		if op.PreSecret || op.PreCrown || op.Kind == "push" {
+		if op.PreSecret || op.PreCrown || op.Kind == "push" || op.Kind == "putdel" {
 			nr.UpdateMeta()
 			if op.PreSecret {
 				nr.Meta().MakeSecret()
@@ -148,12 +150,15 @@ func (wr *writerRun) do(r *run, op *OpSpec) *opRec {
 			fn = func() error { return wr.iface.Put(nr) }
 		case "putnew":
 			fn = func() error { return wr.iface.PutNew(nr) }
+		case "putdel":
+			// a delete expressed as Put of a record that is marked deleted; the record
+			// is a fresh object, so this delete has its own token
+			nr.Meta().Delete()
+			fn = func() error { return wr.iface.Put(nr) }
 		case "push":
 			// the provider of an injected database updates its value and pushes it
 			fn = func() error {
-				if _, err := r.w.prov.Set(nr); err != nil {
-					return err
-				}
+				r.w.store(nr)
 				nr.Lock()
 				defer nr.Unlock()
 				r.w.push(nr)
@@ -793,10 +798,12 @@ func (r *run) judge(b *vlib.Batch) {
 			var firstMand *opRec
 			for _, c := range cands {
 				if c.status == stMandatory {
-					mand++
-					if firstMand == nil {
+					// assuming in-order delivery the first len(occ) mandatory writes are
+					// the delivered ones: name the first one beyond them
+					if mand == len(occ[g]) || firstMand == nil {
 						firstMand = c.op
 					}
+					mand++
 				}
 			}
 			b.Count("mandatory_deliveries", int64(mand))
